@@ -479,6 +479,8 @@ def length(I: Any, v: Term, st: Any, ctx: Any, node: ast.AST) -> Term:
         return ("len", ("sym", I.describe(v, st), "any"))
     if v[0] in ("tuple", "clist", "cset", "cdict"):
         return c(len(v[1]))
+    if v[0] == "splitlist":
+        return ("nparts", v)
     return ("len", v)
 
 
